@@ -25,12 +25,16 @@ int main(void) {
 #if H_MODE == 1
   int64_t backlog = vf_cfg[0][0], dropped = vf_cfg[0][1], n = vf_cfg[0][2];
   VF_CHECK(seen1 == 1, "harness: step observed");
-  int fits = n + backlog <= MAXSZ;
+  int64_t cap = vf_cfg[0][3];   /* 1 MiB, or the small symbolic cap of the smallcap variant */
+  int fits = n + backlog <= cap;
   VF_CHECK(n1[0] == fits, "C20: a line is accepted iff the backlog stays within 1 MiB, otherwise dropped");
   if (fits) {
     VF_CHECK(n1[1] == backlog + n, "C20: the backlog counter grows by the size of every accepted line (so the 1 MiB bound is enforced)");
     VF_CHECK(n1[2] == dropped, "C20: accepting a line does not change the drop count");
-    if (backlog + n == MAXSZ) VF_REACH("line accepted exactly at the 1 MiB boundary");
+    if (backlog + n == cap) VF_REACH("line accepted exactly at the 1 MiB boundary");
+  } else if (n > cap) {
+    VF_CHECK(n1[1] == backlog && n1[2] == dropped + 1, "C20: a line longer than the whole cap is dropped and counted");
+    VF_REACH("line longer than the whole cap");
   } else {
     VF_CHECK(n1[1] == backlog, "C20: a dropped line does not change the backlog");
     VF_CHECK(n1[2] == dropped + 1, "C20: every dropped line is counted");
